@@ -34,6 +34,7 @@ Next ==
     \/ HandleTx
     \/ Lifecycle /\ \E x \in Wallets : Import(x) \/ Remove(x)
     \/ Lifecycle /\ (ImportStep \/ RemoveStep)
+    \/ Lifecycle /\ MultiStep /\ (RemoveStepA \/ RemoveStepB)
     \/ Faults /\ (HandleBlockFault \/ HandleTxFault \/ WorkerStepFault)
     \/ Crashes /\ Crash
     \/ Crashes /\ Lifecycle /\ \E k \in 1..RemoveCommits : RemoveStepCrash(k)
